@@ -36,7 +36,8 @@ class _Comp(ast.NodeTransformer):
         d = dotted(base)
         if d is None:
             return node
-        return ast.Name(id=d.replace(".", "_") + f"__{comp}", ctx=ast.Load())
+        base_name = d.split(".")[-1].lstrip("_")
+        return ast.Name(id=base_name + f"__{comp}", ctx=ast.Load())
 
 
 def _phase_terms(expr: ast.expr) -> Poly:
@@ -80,10 +81,17 @@ def run(ctx) -> None:
             st.targets[0], ast.Name)}
         exps = [c for st in arm for c in ast.walk(st) if isinstance(c, ast.Call) and call_name(c) == "complex_exponential"]
         ctx.require(len(exps) >= 1, f"{arm_name} arm: no complex_exponential")
+        # position coordinates: a local defined from scan._x_coordinates() is the x (axis 0) coordinate, etc.
+        coord_axis = {}
+        for nm, v in assigns.items():
+            t = norm_text(v)
+            if "_x_coordinates" in t:
+                coord_axis[nm] = "0"
+            elif "_y_coordinates" in t:
+                coord_axis[nm] = "1"
         total = Poly()
         for c in exps:
             total = total + _phase_terms(c.args[0])
-        # total must be -2*pi*(P0*K0 + P1*K1)
         monos = total.terms
         ok = len(monos) == 2
         axes_seen = set()
@@ -93,13 +101,13 @@ def run(ctx) -> None:
             comps = [a for a in atoms if a != PI]
             okm = coeff == -2 and atoms.get(PI) == 1 and len(comps) == 2 and all(atoms[a] == 1 for a in comps)
             if okm:
-                kcomp = [a for a in comps if "wave_vectors__" in a]
-                pcomp = [a for a in comps if "wave_vectors__" not in a]
+                kcomp = [a for a in comps if a.startswith("wave_vectors__")]
+                pcomp = [a for a in comps if not a.startswith("wave_vectors__")]
                 okm = len(kcomp) == 1 and len(pcomp) == 1
                 if okm:
                     kax = kcomp[0].rsplit("__", 1)[1]
                     p = pcomp[0]
-                    pax = p.rsplit("__", 1)[1] if "__" in p else {"x": "0", "y": "1"}.get(p)
+                    pax = p.rsplit("__", 1)[1] if "__" in p else coord_axis.get(p)
                     okm = pax == kax
                     axes_seen.add(kax)
             ok = ok and okm
@@ -109,11 +117,10 @@ def run(ctx) -> None:
                   f"the {arm_name} arm's phase normalises to `{detail}`, not -2*pi*(x*k_x + y*k_y)",
                   key_detail=arm_name)
         if arm_name == "GridScan":
-            srcs = {k: norm_text(v) for k, v in assigns.items()}
-            okx = "_x_coordinates" in srcs.get("x", "") and "_y_coordinates" in srcs.get("y", "")
-            ctx.check(okx, "R-PHASE", f"{pc.qualname}:GridScan coordinates", pc.loc(arm[0]),
-                      "x from _x_coordinates(), y from _y_coordinates()",
-                      f"x/y are taken from {srcs.get('x')} / {srcs.get('y')}", key_detail="xy")
+            ctx.check(sorted(coord_axis.values()) == ["0", "1"], "R-PHASE", f"{pc.qualname}:GridScan coordinates",
+                      pc.loc(arm[0]), "x from _x_coordinates(), y from _y_coordinates()",
+                      f"the GridScan arm does not take one coordinate from _x_coordinates() and one from "
+                      f"_y_coordinates() ({ {k: norm_text(v)[:40] for k, v in assigns.items()} })", key_detail="xy")
 
     # ---------------- R-ANGLES
     cc = repo.method(SM, "SMatrixArray", "_calculate_ctf_coefficients")
@@ -126,15 +133,16 @@ def run(ctx) -> None:
     ctx.require(len(ev) == 1 and len(ev[0].args) == 2, "_calculate_ctf_coefficients: kernel evaluation not found")
     a_name, p_name = (dotted(x) for x in ev[0].args)
     ctx.require(a_name in assigns and p_name in assigns, "alpha/phi definitions not found")
-    alias = {"wave_vectors": "self_wave_vectors"}
+    alias = {}
 
     class _Inline(ast.NodeTransformer):
         def __init__(self):
             self.stack = []
 
         def visit_Name(self, node):
-            if isinstance(node.ctx, ast.Load) and node.id in assigns and node.id not in self.stack and \
-                    node.id not in ("wave_vectors", "xp", "np", "cp"):
+            if isinstance(node.ctx, ast.Load) and node.id in assigns and node.id not in self.stack and not (
+                    isinstance(assigns[node.id], ast.Call) and (call_name(assigns[node.id]) or "").endswith(
+                        "get_array_module")):
                 self.stack.append(node.id)
                 try:
                     return self.visit(copy.deepcopy(assigns[node.id]))
@@ -149,12 +157,14 @@ def run(ctx) -> None:
         return e
     alpha = Normalizer(atom_alias=alias).norm(canon(assigns[a_name]))
     kx, ky = Poly.atom("wave_vectors__0"), Poly.atom("wave_vectors__1")
-    want = (kx * kx + ky * ky).power(__import__("fractions").Fraction(1, 2)) * Poly.atom("ctf.wavelength")
+    ctf_param = cc.positional_params[1]
+    want = (kx * kx + ky * ky).power(__import__("fractions").Fraction(1, 2)) * Poly.atom(f"{ctf_param}.wavelength")
     ctx.check(alpha == want, "R-ANGLES", f"{cc.qualname}:alpha", cc.where, f"alpha = {alpha.key()}",
               f"alpha normalises to `{alpha.key()}`, not |k|*wavelength", key_detail="alpha")
     ph = canon(assigns[p_name])
     okp = isinstance(ph, ast.Call) and (call_name(ph) or "").endswith("arctan2") and [dotted(a) for a in ph.args] == [
         "wave_vectors__1", "wave_vectors__0"]
+    wl_atoms = [a for a in alpha.atoms() if a.endswith(".wavelength")]
     ctx.check(okp, "R-ANGLES", f"{cc.qualname}:phi", cc.where, "phi = arctan2(k_y, k_x)",
               f"phi = {norm_text(assigns[p_name])}: not arctan2(k_y, k_x)", key_detail="phi")
     g = repo.function("abtem.core.grid", "polar_spatial_frequencies")
@@ -179,11 +189,29 @@ def run(ctx) -> None:
                   f"`{norm_text(c)}` does not contract the coefficients' last axis with the S-matrix plane-wave axis",
                   key_detail=norm_text(axes) if axes is not None else "?")
     br = repo.method(SM, "SMatrixArray", "_batch_reduce_to_measurements")
-    mult = [st for st in ast.walk(br.node) if isinstance(st, ast.Assign) and isinstance(st.value, ast.BinOp)
-            and isinstance(st.targets[0], ast.Name) and st.targets[0].id == "coefficients"]
+    # the coefficients handed to _reduce_to_waves: product of position and (broadcast) CTF coefficients
+    rcalls = [c for c in ast.walk(br.node) if isinstance(c, ast.Call) and call_name(c) == "self._reduce_to_waves"]
+    ctx.require(len(rcalls) == 1 and len(rcalls[0].args) >= 3, "_batch_reduce_to_measurements: _reduce_to_waves call not found")
+    cvar = dotted(rcalls[0].args[2])
+    defs = [st for st in ast.walk(br.node) if isinstance(st, ast.Assign) and len(st.targets) == 1
+            and dotted(st.targets[0]) == cvar]
+    mult = [st for st in defs if isinstance(st.value, ast.BinOp)]
     ctx.require(len(mult) == 1, "_batch_reduce_to_measurements: coefficient product not found")
-    names = {dotted(mult[0].value.left), dotted(mult[0].value.right)}
-    ok = isinstance(mult[0].value.op, ast.Mult) and names == {"positions_coefficients", "expanded_ctf_coefficients"}
+    pos_calls = [st for st in ast.walk(br.node) if isinstance(st, ast.Assign) and isinstance(st.value, ast.Call)
+                 and call_name(st.value) == "self._calculate_positions_coefficients"]
+    ctf_calls = [st for st in ast.walk(br.node) if isinstance(st, ast.Assign) and isinstance(st.value, ast.Call)
+                 and call_name(st.value) == "self._calculate_ctf_coefficients"]
+    ctx.require(len(pos_calls) == 1 and len(ctf_calls) == 1, "coefficient computations not found")
+    pos_var, ctf_var = dotted(pos_calls[0].targets[0]), dotted(ctf_calls[0].targets[0])
+    ex0 = [st for st in ast.walk(br.node) if isinstance(st, ast.Assign) and isinstance(st.value, ast.Call)
+           and call_name(st.value) == "expand_dims_to_broadcast" and isinstance(st.targets[0], ast.Tuple)]
+    expanded = {}
+    for st in ex0:
+        for tgt, arg in zip(st.targets[0].elts, st.value.args):
+            expanded[dotted(tgt)] = dotted(arg)
+    operands = {expanded.get(dotted(mult[0].value.left), dotted(mult[0].value.left)),
+                expanded.get(dotted(mult[0].value.right), dotted(mult[0].value.right))}
+    ok = isinstance(mult[0].value.op, ast.Mult) and operands == {pos_var, ctf_var}
     ctx.check(ok, "R-CONTRACT", f"{br.qualname}:product", br.loc(mult[0]), "coefficients = positions * ctf",
               f"`{norm_text(mult[0])}` is not the product of position and CTF coefficients", key_detail="product")
     ex = [c for c in ast.walk(br.node) if isinstance(c, ast.Call) and call_name(c) == "expand_dims_to_broadcast"]
